@@ -116,6 +116,28 @@ struct C01Fin {
 				ctx.count("broadcast_checked");
 			}
 		}
+		// differential runs only (C11 replays this program over raw and over fancy pointers): the final view reinterpreted with an extra trailing dimension
+		// (int as 2 shorts) has the view's extents plus {2} and designates the two halves of each designated element, whatever the pointer type
+		if constexpr(D >= 2 && D <= 3 && std::is_same_v<T, int>) {  // (the D == 1 overload needs an ADL reinterpret_pointer_cast for the pointer type: a customisation point the harness pointers do not provide)
+			if(ctx.want_transcript && !m.empty()) {
+				auto&& rv = std::as_const(v).template reinterpret_array_cast<short>(2);
+				constexpr int DX = D + 1;
+				static_assert(rank_of<decltype(rv)> == DX);
+				long sz[DX]; lib_sizes(rv, sz);
+				for(int j = 0; j < D; ++j) { VP_CHECK(sz[j] == m.d[static_cast<std::size_t>(j)].size, "fancy/reinterpret_extents", "reinterpret_array_cast<short>(2): extent " << j << " is " << sz[j] << " model " << m.d[static_cast<std::size_t>(j)].size); }
+				VP_CHECK(sz[D] == 2, "fancy/reinterpret_extents", "reinterpret_array_cast<short>(2): trailing extent is " << sz[D]);
+				Model mx = m; mx.d.push_back(Dim{0, 2, 0});
+				long o[DX] = {}; long idx[DX];
+				do {
+					for(int j = 0; j < D; ++j) { idx[j] = m.d[static_cast<std::size_t>(j)].first + o[j]; }
+					idx[D] = o[D];
+					auto const* p = addr_chain(rv, idx);
+					auto const* want = reinterpret_cast<char const*>(root + m.pos(o)) + 2*o[D];
+					VP_CHECK(reinterpret_cast<char const*>(p) == want, "fancy/reinterpret_position", "reinterpret_array_cast<short>(2): half " << o[D] << " of an element is not over that element's bytes");
+				} while(next_ord(mx, o));
+				ctx.count("reinterpret_extra_dimension_checked");
+			}
+		}
 		ctx.nontrivial = interp.applied >= 2 && interp.layout_changing >= 1 && m.nelems() >= 2;
 		ctx.desc << " => "; m.print(ctx.desc);
 		if(m.empty()) { ctx.label("final_empty"); } else if(!m.compact_rowmajor()) { ctx.label("final_noncontiguous"); } else { ctx.label("final_contiguous"); }
